@@ -69,6 +69,24 @@ CHECKS = {
          "including Debug/Display (with and without precision)."),
    note="Trusted: TLC, token palette, harness/src/mt.rs path table; from/to_cols_array are the base projection all other paths are compared to.",
    ref="5 (C06)"),
+ "C04": dict(
+   technique="TLA+ Hamilton algebra from i^2=j^2=k^2=ijk=-1 and rotation as the sandwich q v q*, TLC-checked group/algebra theorems, exact replay on integer and Hurwitz-unit quaternions",
+   text=("LinAlg.tla defines the Hamilton product from the defining relations and rotation as vec(q (v,0) conj q); TLC checks associativity, "
+         "norm multiplicativity, conjugate anti-homomorphism, closure of the 24 Hurwitz units, (pq)v = p(qv), q and -q rotate alike, "
+         "length preservation, matrix_of(pq) = matrix_of(p) matrix_of(q), det = +1. All integer-component pairs (-1..1 quick, -2..2 thorough) "
+         "and all Hurwitz units x lattice vectors are replayed exactly on Quat and DQuat (Vec3 and Vec3A right-hand sides, poisoned hidden "
+         "lane, every spelling incl. *= and Product) in sse2 (debug, release, +fma), scalar-math and core-simd builds."),
+   note="Trusted: TLC, harness lin.rs. Rounding bound 'a few eps |v|' for arbitrary unit quaternions is not decided (exact lattice only).",
+   ref="5 (C04), 2.2"),
+ "C15": dict(
+   technique="TLA+ mask register machine (complete over all 2^N masks and operand pairs, full observation after every step), select on tokens, comparison cases from the float and integer lattices; replay on all five mask types from several producers",
+   text=("TLC explores every two-step behaviour of the mask machine for N=2,3,4 (constructors, !, &,|,^ and assigning forms over all operand "
+         "masks, set, invalid indices) and checks the boolean-algebra laws; after every step the harness compares bitmask, any, all, test(i), "
+         "==, Hash, [bool;N], [u32;N], Debug and Display with the specification on BVec2/3/4 and BVec3A/4A, with BVec3A/4A values produced "
+         "by constructors and by vector comparisons whose hidden lane is false, true or NaN-derived; select over all masks x token operands "
+         "on 34 vector types; the six comparisons over the C01 float lattice (NaN, +-0, +-inf) and the C13 integer lattice."),
+   note="Trusted: TLC, harness mask.rs. Hash is required to be a function of the lanes, not byte-identical between BVec3 and BVec3A.",
+   ref="5 (C15)"),
 }
 
 PENDING = {}
